@@ -114,6 +114,8 @@ def m_len(it, x):
         return len(x.elems)
     if isinstance(x, SymColl) and x.length is not None:
         return x.length
+    if isinstance(x, Obj) and ('len', x.cls) in it.hooks:
+        return it.hooks[('len', x.cls)](it, x)
     if isinstance(x, Obj) and x.cls in it.prog.classes:
         r = it.prog.find_member(x.cls, '__len__')
         if r:
